@@ -84,7 +84,27 @@ pub const ITER_KINDS: [Kind; 4] = [
     Kind::ClonedIter,
     Kind::CopiedIter,
 ];
-pub const CONSUMING: [Kind; 3] = [Kind::Vec, Kind::Array, Kind::IterOwned];
+pub const CONSUMING: [Kind; 5] = [
+    Kind::Vec,
+    Kind::Array,
+    Kind::IterOwned,
+    Kind::VecZst,
+    Kind::ArrayZst,
+];
+
+/// Zero-sized elements have no identity: only pulling methods that report an index are used.
+pub fn zst_ops(ops: &mut [Op]) {
+    for op in ops.iter_mut() {
+        *op = match *op {
+            Op::Next => Op::NextIdVal,
+            Op::Values(m) => Op::IdsValues(m),
+            Op::ForEach(n) | Op::Fold(n) => Op::EnumForEach(n),
+            Op::Drain(Method::Next, e) => Op::Drain(Method::NextIdVal, e),
+            Op::Drain(Method::Values, e) => Op::Drain(Method::IdsValues, e),
+            other => other,
+        };
+    }
+}
 
 pub fn opts_for(prop: &str) -> GenOpts {
     let mut o = GenOpts::base();
@@ -296,7 +316,7 @@ fn pick_len(rng: &mut Rng, kind: Kind, max_len: usize) -> usize {
         // a few "large" runs: a defect that only shows beyond some size threshold
         // (a chunk of more than 32 elements, a length above 64, ...) must not hide in the small scope
         let l = *rng.pick(&[31usize, 32, 33, 63, 64, 65, 100, 129]);
-        if matches!(kind, Kind::Array | Kind::ArrayRef) {
+        if kind.is_array() {
             return *rng.pick(&[33usize, 64]);
         }
         return l;
@@ -307,7 +327,7 @@ fn pick_len(rng: &mut Rng, kind: Kind, max_len: usize) -> usize {
         2 => 2,
         _ => rng.range(0, max_len),
     };
-    if matches!(kind, Kind::Array | Kind::ArrayRef) {
+    if kind.is_array() {
         // nearest supported array length
         *Kind::array_lens()
             .iter()
@@ -505,7 +525,7 @@ pub fn generate_with(prop: &str, o: &GenOpts, base_seed: u64, index: u64) -> Run
     let mut len = pick_len(&mut rng, kind, o.max_len);
     if let Some((_, l, _)) = crash_point {
         len = l;
-        if matches!(kind, Kind::Array | Kind::ArrayRef) && !Kind::array_lens().contains(&len) {
+        if kind.is_array() && !Kind::array_lens().contains(&len) {
             len = 6;
         }
     }
@@ -553,6 +573,14 @@ pub fn generate_with(prop: &str, o: &GenOpts, base_seed: u64, index: u64) -> Run
     } else {
         vec![]
     };
+    let mut threads = threads;
+    let mut pre = pre;
+    if kind.is_zst() {
+        for t in threads.iter_mut() {
+            zst_ops(t);
+        }
+        zst_ops(&mut pre);
+    }
     let terminal = if rng.chance(o.into_seq_pct, 100) {
         if o.into_seq_all || rng.chance(2, 3) {
             Terminal::IntoSeq(usize::MAX)
@@ -772,6 +800,13 @@ pub fn generate_c16(base_seed: u64, index: u64, schedules_per_point: u64) -> Run
         a.extend(tail_a.iter().cloned());
         (vec![], vec![a, tail_b])
     };
+    let (mut pre, mut threads) = (pre, threads);
+    if kind.is_zst() {
+        zst_ops(&mut pre);
+        for t in threads.iter_mut() {
+            zst_ops(t);
+        }
+    }
     let nthreads = threads.len();
     let mut sim = SimCfg::simple(nthreads, mix(&[run_seed, 0x5eed]));
     sim.strategy = strategy(&mut rng, false);
